@@ -94,12 +94,13 @@ impl Graph {
     /// Independent model of include resolution: the includer's directory first, then
     /// INCLUDE_DIR; the first candidate that is a readable file wins.
     pub fn resolve(&self, includer: usize, name: &str) -> Option<usize> {
-        let first = format!("{}/{}", parent_of(&self.files[includer].path), name);
+        let norm = |p: String| crate::model::norm_path(&p);
+        let first = norm(format!("{}/{}", parent_of(&self.files[includer].path), name));
         if let Some(i) = self.index_of(&first) {
             return Some(i);
         }
         if let Some(d) = &self.include_dir {
-            return self.index_of(&format!("{d}/{name}"));
+            return self.index_of(&norm(format!("{d}/{name}")));
         }
         None
     }
@@ -219,6 +220,7 @@ pub fn gen_graph(rng: &mut Rng, allow_nested: bool) -> Graph {
     }
     let include_dir = if rng.chance(1, 2) { Some("/w/inc".to_string()) } else { None };
     let nested_graph = allow_nested && rng.chance(1, 4);
+    let dotdot = rng.chance(1, 3);
     let mut counter = 0u32;
     let mut unreadable = Vec::new();
     for i in 0..files.len() {
@@ -237,6 +239,17 @@ pub fn gen_graph(rng: &mut Rng, allow_nested: bool) -> Graph {
                 }
                 2 | 3 if spread => format!("sub/f{}.td", rng.below(4)),
                 4 if spread => format!("inc/f{}.td", rng.below(4)),
+                // the same files, spelled through "." and ".." (only through directories that
+                // exist: the includer's own, or one that holds a file of the graph)
+                5 if dotdot => {
+                    let dir = parent_of(&files[i].path).to_string();
+                    if dir == "/w" {
+                        let has_sub = files.iter().any(|f| f.path.starts_with("/w/sub/"));
+                        if has_sub { format!("sub/../f{}.td", rng.below(4)) } else { format!("./f{}.td", rng.below(4)) }
+                    } else {
+                        format!("../f{}.td", rng.below(4))
+                    }
+                }
                 _ => {
                     // mostly names of files that exist somewhere, so that most includes resolve
                     let t = rng.below(files.len());
